@@ -33,6 +33,11 @@ class BH(progx.OpHooks):
         return progx.OpHooks.call(self, p, args, e)
 
     def mcall(self, recv, m, args, e, ev):
+        if m == "into" and not args and isinstance(recv, tuple) and recv and recv[0] == "param" and getattr(self, "param_types", {}).get(recv[1]):
+            # an argument of a known scalar type converted with a `From` impl of the crate (e.g. u32 -> Operand::LiteralBit32)
+            r = self.convert_from(self.param_types[recv[1]].replace(" ", "").split("::")[-1], recv)
+            if r is not NotImplemented:
+                return r
         if isinstance(recv, tuple) and recv and recv[0] in ("param", "elem") and m in ("into", "to_string", "to_owned", "clone", "as_ref", "borrow", "as_str"):
             return recv
         return progx.InlineHooks.mcall(self, recv, m, args, e, ev)
@@ -96,6 +101,7 @@ def run(ctx, f, variant, selected, insert_point=None, twin=None):
             for bl_ in fn_[2]["blocks"][1]:
                 bl_[2]["instructions"][1].append(copy.deepcopy(twin))
     h = BH(ctx)
+    h.param_types = {p[0]: p[1] for p in f["sig"]["params"] if p[0] != "self" and p[1].replace(" ", "") in ("u32", "u64", "spirv::Word", "Word", "f32", "f64", "bool")}
     ev = progx.make(h, "Builder::" + f["name"])
     env = {"self": b}
     for name, ty in [(p[0], p[1]) for p in f["sig"]["params"] if p[0] != "self"]:
